@@ -16,10 +16,7 @@ Import ListNotations.
 Local Open Scope nat_scope.
 
 (* 0-9 A-Z a-z *)
-Definition alnum : list Z :=
-  map Z.of_nat (seq 48 10 ++ seq 65 26 ++ seq 97 26).
-
-Definition letters (s : str) : str := proj alnum s.
+(* [alnum], [letters]: Proofs/RxSubProofs.v *)
 
 Fixpoint rx_lookup (k : str) (t : list (str * rx)) : option rx :=
   match t with [] => None | (k', v) :: t' => if str_eqb k k' then Some v else rx_lookup k t' end.
